@@ -131,6 +131,12 @@ where
                                 target_max_depth,
                                 &max_depth,
                             );
+                            if job_broker.is_shut_down() {
+                                // Timed out, or another worker stopped: observed once per
+                                // block even if this worker never shares or requests work.
+                                log::debug!("{}: Market shut down. Shutting down...", t);
+                                return;
+                            }
                             if finish_when.matches(
                                 &discoveries.iter().map(|r| *r.key()).collect(),
                                 &properties,
